@@ -383,3 +383,203 @@ theorem wired_label {m : Mod} (wf : WF m) (hres : ∀ p ∈ m.ports, (resolvePor
           rw [resolve_same_group wf hreach hrp hrq]
 
 end Hdl21.PortRefs
+
+namespace Hdl21.PortRefs
+open Hdl21.Dfs
+
+/-- what makes the pass raise, said without reference to the pass -/
+inductive IllFormed (m : Mod) : Prop
+  /-- a port that is neither connected nor referenced -/
+  | dangling (p : Port) : p ∈ m.ports → look m p = none → (∀ q, look m q ≠ some (.pref p)) → IllFormed m
+  /-- a no-connected port that shares its group with another port (it is referenced, or refers, elsewhere) -/
+  | ncShared (p q : Port) : p ∈ m.ports → isNc m p = true → Reach (nbrs m) p q → q ≠ p → IllFormed m
+  /-- two different declared signals in one group -/
+  | twoSignals (p x y : Port) (s t : Nat) : p ∈ m.ports → Reach (nbrs m) p x → Reach (nbrs m) p y →
+      look m x = some (.sig s) → look m y = some (.sig t) → s ≠ t → IllFormed m
+
+theorem findIdx?_isSome {α : Type} (p : α → Bool) : ∀ (l : List α) (x : α), x ∈ l → p x = true → (l.findIdx? p).isSome
+  | [], x, h, _ => by cases h
+  | a :: r, x, h, hp => by
+    rw [List.findIdx?_cons]
+    split
+    · rfl
+    · rcases List.mem_cons.mp h with rfl | h'
+      · rename_i hna; exact absurd hp hna
+      · have := findIdx?_isSome p r x h' hp
+        cases hr : r.findIdx? p with
+        | none => simp [hr] at this
+        | some j => simp
+
+theorem inventedFor_isSome {m : Mod} {g : List Port} {p : Port} (hp : p ∈ m.ports) (hg : p ∈ g) : (inventedFor m g).isSome := by
+  unfold inventedFor
+  have := findIdx?_isSome (fun y => decide (y ∈ g)) m.ports p hp (by simpa using hg)
+  cases h : m.ports.findIdx? (fun y => decide (y ∈ g)) with
+  | none => simp [h] at this
+  | some j => simp
+
+theorem back_nil_iff {m : Mod} (wf : WF m) (p : Port) : back m p = [] ↔ ∀ q, look m q ≠ some (.pref p) := by
+  constructor
+  · intro h q hq
+    have : q ∈ back m p := mem_back.mpr (look_mem hq)
+    rw [h] at this; cases this
+  · intro h
+    apply List.eq_nil_iff_forall_not_mem.mpr
+    intro q hq
+    exact h q (mem_look wf (mem_back.mp hq))
+
+theorem uniqueSource_isNone_iff (l : List Nat) : uniqueSource l = none ↔ ∃ a b, a ∈ l ∧ b ∈ l ∧ a ≠ b := by
+  cases l with
+  | nil => simp [uniqueSource]
+  | cons s r =>
+    simp only [uniqueSource]
+    split
+    · rename_i hall
+      simp only [List.all_eq_true, beq_iff_eq] at hall
+      constructor
+      · intro h; cases h
+      · rintro ⟨a, b, ha, hb, hab⟩
+        exfalso
+        have ea : a = s := by rcases List.mem_cons.mp ha with rfl | h; rfl; exact hall a h
+        have eb : b = s := by rcases List.mem_cons.mp hb with rfl | h; rfl; exact hall b h
+        exact hab (ea.trans eb.symm)
+    · rename_i hall
+      constructor
+      · intro _
+        have hf : r.all (· == s) = false := by simpa using hall
+        obtain ⟨y, hy, hne⟩ := List.all_eq_false.mp hf
+        exact ⟨y, s, List.mem_cons_of_mem _ hy, List.mem_cons_self .., by simpa using hne⟩
+      · intro _; rfl
+
+/-- **The pass raises exactly on the ill-formed modules** (given that group discovery answers). -/
+theorem resolve_none_iff {m : Mod} (wf : WF m) (hfuel : ∀ p ∈ m.ports, (group m p).isSome) :
+    (∃ p ∈ m.ports, resolvePort m p = none) ↔ IllFormed m := by
+  constructor
+  · rintro ⟨p, hp, hnone⟩
+    unfold resolvePort at hnone
+    cases hg : group m p with
+    | none => have := hfuel p hp; simp [hg] at this
+    | some g =>
+      simp only [hg] at hnone
+      have hpg := group_self hg
+      split at hnone
+      · rename_i hc
+        exact .dangling p hp hc.1 ((back_nil_iff wf p).mp hc.2)
+      · split at hnone
+        · rename_i hany
+          split at hnone
+          · have := inventedFor_isSome (g := g) hp hpg
+            rw [hnone] at this; cases this
+          · rename_i hall
+            -- some member is a no-connect, and not every member is `p`
+            obtain ⟨y, hy, hync⟩ := List.any_eq_true.mp hany
+            have hex : ∃ z, z ∈ g ∧ z ≠ p := by
+              have hf : g.all (· == p) = false := by simpa using hall
+              obtain ⟨z, hz, hne⟩ := List.all_eq_false.mp hf
+              exact ⟨z, hz, by simpa using hne⟩
+            obtain ⟨z, hz, hzne⟩ := hex
+            have hry := (group_iff hg y).mp hy
+            have hrz := (group_iff hg z).mp hz
+            have hyp : y ∈ m.ports := by
+              unfold isNc at hync
+              cases hl : look m y with
+              | none => simp [hl] at hync
+              | some c => exact wf.keysIn _ (look_mem hl)
+            by_cases hyz : z = y
+            · -- then y ≠ p, and p is in y's group
+              subst hyz
+              exact .ncShared z p hyp hync (reach_symm wf hry) (fun e => hzne e.symm)
+            · exact .ncShared y z hyp hync ((reach_symm wf hry).trans hrz) hyz
+        · split at hnone
+          · rename_i hus
+            obtain ⟨a, b, ha, hb, hab⟩ := (uniqueSource_isNone_iff _).mp hus
+            obtain ⟨x, hx, hsx⟩ := List.mem_filterMap.mp ha
+            obtain ⟨y, hy, hsy⟩ := List.mem_filterMap.mp hb
+            have lx : look m x = some (.sig a) := by
+              unfold srcOf at hsx
+              cases hl : look m x with
+              | none => simp [hl] at hsx
+              | some c => cases c <;> simp_all
+            have ly : look m y = some (.sig b) := by
+              unfold srcOf at hsy
+              cases hl : look m y with
+              | none => simp [hl] at hsy
+              | some c => cases c <;> simp_all
+            exact .twoSignals p x y a b hp ((group_iff hg x).mp hx) ((group_iff hg y).mp hy) lx ly hab
+          · cases hnone
+          · have := inventedFor_isSome (g := g) hp hpg
+            rw [hnone] at this; cases this
+  · intro hill
+    cases hill with
+    | dangling p hp hl hb =>
+      refine ⟨p, hp, ?_⟩
+      unfold resolvePort
+      cases hg : group m p with
+      | none => rfl
+      | some g => simp [hl, (back_nil_iff wf p).mpr hb]
+    | ncShared p q hp hnc hr hne =>
+      refine ⟨p, hp, ?_⟩
+      unfold resolvePort
+      cases hg : group m p with
+      | none => rfl
+      | some g =>
+        simp only
+        have hpg := group_self hg
+        have hqg := (group_iff hg q).mpr hr
+        have hlook : ¬ (look m p = none ∧ back m p = []) := by
+          intro h; unfold isNc at hnc; simp [h.1] at hnc
+        rw [if_neg hlook]
+        have hany : g.any (isNc m) = true := List.any_eq_true.mpr ⟨p, hpg, hnc⟩
+        rw [if_pos hany]
+        have hall : ¬ (g.all (· == p) = true) := by
+          intro h
+          have := List.all_eq_true.mp h q hqg
+          exact hne (by simpa using this)
+        rw [if_neg hall]
+    | twoSignals p x y s t hp hrx hry hlx hly hst =>
+      -- resolved or not, some port of the group fails: take `p`
+      refine ⟨p, hp, ?_⟩
+      unfold resolvePort
+      cases hg : group m p with
+      | none => rfl
+      | some g =>
+        simp only
+        have hxg := (group_iff hg x).mpr hrx
+        have hyg := (group_iff hg y).mpr hry
+        split
+        · rfl
+        · split
+          · split
+            · rename_i hall
+              -- all members are p: then x = y = p, so s = t
+              exfalso
+              have ex : x = p := by simpa using List.all_eq_true.mp hall x hxg
+              have ey : y = p := by simpa using List.all_eq_true.mp hall y hyg
+              subst ex; subst ey
+              rw [hlx] at hly; injection hly with h; injection h with h; exact hst h
+            · rfl
+          · have hs : s ∈ g.filterMap (srcOf m) := List.mem_filterMap.mpr ⟨x, hxg, by simp [srcOf, hlx]⟩
+            have ht : t ∈ g.filterMap (srcOf m) := List.mem_filterMap.mpr ⟨y, hyg, by simp [srcOf, hly]⟩
+            have : uniqueSource (g.filterMap (srcOf m)) = none := (uniqueSource_isNone_iff _).mpr ⟨s, t, hs, ht, hst⟩
+            rw [this]
+
+end Hdl21.PortRefs
+
+namespace Hdl21.PortRefs
+open Hdl21.Dfs
+
+theorem unvisited_le (U g : List Port) : unvisited U g ≤ U.length := by
+  unfold unvisited; exact List.length_filter_le _ _
+
+/-- group discovery answers for every port of the module -/
+theorem group_total {m : Mod} (wf : WF m) (p : Port) (hp : p ∈ m.ports) : (group m p).isSome := by
+  have hU : ∀ x, x ∈ m.ports → ∀ y, y ∈ nbrs m x → y ∈ m.ports := by
+    intro x _ y hy
+    rcases (mem_nbrs wf).mp hy with h | h
+    · exact wf.prefIn _ (look_mem h) y rfl
+    · exact wf.keysIn _ (look_mem h)
+  obtain ⟨g, hg⟩ := dfs_total (nbrs m) m.ports hU (fuelOf m) p [] hp (by
+    have := unvisited_le m.ports []
+    unfold fuelOf; omega)
+  unfold group; rw [hg]; rfl
+
+end Hdl21.PortRefs
